@@ -358,7 +358,6 @@ Print Assumptions C10_fast_src_compact.
 Print Assumptions C10_fast_src_init.
 Print Assumptions C10_fast_src_heap0.
 Print Assumptions C10_fast_src_heap1.
-=======
 (* ------------------------------------------------------------------ histories: refutations and non-vacuity *)
 
 Definition strf : tfield := TLeaf (LPrim (FString no_strc)).
